@@ -816,6 +816,27 @@ func (u *Unit) binop(st *State, op token.Token, l, r Value, t types.Type, pos to
 			}
 		}
 	}
+	// (x | c) & m == x & m when the literals c and m share no bit
+	if op == token.AND {
+		for _, p := range [][2]Term{{a, b}, {b, a}} {
+			m, ok := p[1].intVal()
+			if !ok || m.Sign() < 0 || !strings.HasPrefix(p[0].S, "(bit_or ") {
+				continue
+			}
+			i := len("(bit_or ")
+			j := skipSexp(p[0].S, i)
+			k := skipSexp(p[0].S, j)
+			if strings.TrimSpace(p[0].S[k:]) != ")" {
+				continue
+			}
+			x, y := Term{strings.TrimSpace(p[0].S[i:j]), SInt}, Term{strings.TrimSpace(p[0].S[j:k]), SInt}
+			for _, q := range [][2]Term{{x, y}, {y, x}} {
+				if c, ok := q[1].intVal(); ok && c.Sign() >= 0 && new(big.Int).And(c, m).Sign() == 0 {
+					return u.binop(st, op, scalar(l.T, q[0]), scalar(r.T, p[1]), t, pos)
+				}
+			}
+		}
+	}
 	// bit operations distribute over a conditional with literal branches when the other operand is
 	// a literal: c | ite(p, x, y) = ite(p, c|x, c|y) (so that flag words fold to constants per case)
 	switch op {
